@@ -3207,6 +3207,21 @@ func main() {
 	for _, dir := range order {
 		p := pkgs[dir]
 		fmt.Fprintf(&sb, "\n/-! ## package %s (%s) -/\n", p.name, dir)
+		// every non-negative integer constant of the package is emitted, not only the ones the translated functions mention
+		// today: proofs and other definitions refer to them by name, and a rewrite that stops mentioning a constant in one
+		// function must not make the name disappear
+		if p.tpkg != nil {
+			for _, name := range p.tpkg.Scope().Names() { // sorted
+				c, ok := p.tpkg.Scope().Lookup(name).(*types.Const)
+				if !ok || c.Val().Kind() != constant.Int || constant.Sign(c.Val()) < 0 {
+					continue
+				}
+				if _, done := p.consts[name]; !done {
+					p.consts[name] = c.Val().ExactString()
+					p.constOrder = append(p.constOrder, name)
+				}
+			}
+		}
 		for _, c := range p.constOrder {
 			v, _ := new(big.Int).SetString(p.consts[c], 10)
 			fmt.Fprintf(&sb, "\n/-- Go constant `%s.%s` -/\nabbrev %s.%s : Nat := %s\n", p.name, c, p.name, mangle(c), v.String())
